@@ -51,7 +51,15 @@ static atomic_long hold_exits_ok, hold_exits_nothold, queries, odd_status;
 static uint64_t rs; static uint64_t srnd(void) { rs ^= rs >> 12; rs ^= rs << 25; rs ^= rs >> 27; return rs * 2685821657736338717ULL; }
 static uint8_t input[1 << 16]; static size_t inlen, inpos; static long out_bytes, write_refusals; static unsigned p_write = 70;
 static long holds_entered, lockfree_queries_in_handlers, bad_lockfree, event_handler_chains;
-static int io_write(char c) { (void)c; if (srnd() % 100 >= p_write) { write_refusals++; return 0; } out_bytes++; return 1; }
+/* what the host sees is one byte stream: the producer (event machine in hook phase 1, command machine in phase 2) may change only behind a newline */
+static long wire_torn; static int last_producer; static char last_byte = '\n';
+static int io_write(char c)
+{
+        if (srnd() % 100 >= p_write) { write_refusals++; return 0; }
+        if (last_producer && phase != last_producer && last_byte != '\n') wire_torn++;
+        last_producer = phase; last_byte = c;
+        out_bytes++; return 1;
+}
 static int io_read(char *c) { if (inpos >= inlen || srnd() % 100 < 20) return 0; *c = (char)input[inpos++]; return 1; }
 static struct cat_io_interface io = { .write = io_write, .read = io_read };
 
@@ -185,10 +193,10 @@ int main(int argc, char **argv)
         for (int p = 0; p < P; p++) { long a = atomic_load(&accepted[p]), d = atomic_load(&delivered[p]); acc += a; del += d; ref += atomic_load(&refused[p]); if (a != d) bad++; }
         printf("{\"producers\":%d,\"cap\":%d,\"seed\":%llu,\"triggers_per_producer\":%ld,\"accepted\":%ld,\"refused_full\":%ld,\"delivered\":%ld,\"producers_with_mismatch\":%d,"
                "\"lock_calls\":%ld,\"handovers\":%ld,\"contended_locks\":%ld,\"service_calls\":%ld,\"holds_entered\":%ld,\"hold_exits_ok\":%ld,\"hold_exits_not_hold\":%ld,\"queries\":%ld,"
-               "\"write_refusals\":%ld,\"lockfree_queries_in_handlers\":%ld,\"bad_lockfree\":%ld,\"lock_failures\":%ld,\"odd_status\":%ld,\"unlock_errors\":%ld,\"frozen_checks\":%ld,\"frozen_violations\":%ld,\"var_read_failures\":%ld,\"event_handler_chains\":%ld,\"per_producer\":[",
+               "\"write_refusals\":%ld,\"lockfree_queries_in_handlers\":%ld,\"bad_lockfree\":%ld,\"lock_failures\":%ld,\"odd_status\":%ld,\"unlock_errors\":%ld,\"frozen_checks\":%ld,\"frozen_violations\":%ld,\"var_read_failures\":%ld,\"event_handler_chains\":%ld,\"wire_torn\":%ld,\"per_producer\":[",
                P, (int)CAT_UNSOLICITED_CMD_BUFFER_SIZE, (unsigned long long)seed, T, acc, ref, del, bad, lock_calls, handovers, atomic_load(&contended), services, holds_entered,
-               atomic_load(&hold_exits_ok), atomic_load(&hold_exits_nothold), atomic_load(&queries), write_refusals, lockfree_queries_in_handlers, bad_lockfree, atomic_load(&lock_failures), atomic_load(&odd_status), atomic_load(&unlock_errors), atomic_load(&frozen_checks), atomic_load(&frozen_violations), var_read_failures, event_handler_chains);
+               atomic_load(&hold_exits_ok), atomic_load(&hold_exits_nothold), atomic_load(&queries), write_refusals, lockfree_queries_in_handlers, bad_lockfree, atomic_load(&lock_failures), atomic_load(&odd_status), atomic_load(&unlock_errors), atomic_load(&frozen_checks), atomic_load(&frozen_violations), var_read_failures, event_handler_chains, wire_torn);
         for (int p = 0; p < P; p++) printf("%s[%ld,%ld,%ld]", p ? "," : "", atomic_load(&accepted[p]), atomic_load(&refused[p]), atomic_load(&delivered[p]));
         printf("]}\n");
-        return (bad || atomic_load(&odd_status) || atomic_load(&unlock_errors) || atomic_load(&frozen_violations)) ? 1 : 0;
+        return (bad || atomic_load(&odd_status) || atomic_load(&unlock_errors) || atomic_load(&frozen_violations) || wire_torn) ? 1 : 0;
 }
